@@ -101,12 +101,17 @@ func candidateModel(j *Job) (map[string]any, bool) {
 		roots = append(roots, root{p.Name(), c.vals[p].T, k, string(s)})
 	}
 	heaps := map[string]map[string]string{}
+	stripped := strippedScript(j.Script())
 	for hn, term := range c.entry {
 		if strings.HasPrefix(hn, "S|") || strings.HasPrefix(hn, "M|") || strings.HasPrefix(hn, "D|") {
+			// only heap classes this obligation's script declares (the script mentions the heaps it uses)
+			if !strings.Contains(stripped, "(declare-const "+term+" ") {
+				continue
+			}
 			heaps[hn] = map[string]string{"term": term, "sort": string(c.heapSort(hn))}
 		}
 	}
-	req := map[string]any{"script": strippedScript(j.Script()), "roots": roots, "heaps": heaps}
+	req := map[string]any{"script": stripped, "roots": roots, "heaps": heaps}
 	in, _ := json.Marshal(req)
 	ctx, cancel := context.WithTimeout(context.Background(), 30*time.Second)
 	defer cancel()
